@@ -77,6 +77,19 @@ var genMu sync.Mutex
 func verifyFunc(w *world, fn *ssa.Function, lite bool, depth int, exclude []string, locks []string, only []string, opt dischargeOpts) (g *gen, res []result, err error) {
 	defer func() {
 		if r := recover(); r != nil {
+			msg := fmt.Sprint(r)
+			if strings.HasPrefix(msg, "contract error in") || strings.HasPrefix(msg, "iface contract") {
+				// the contract no longer fits the code (a loop clause names a variable the loop does not have, a clause
+				// mentions a removed field, ...): the function's obligations cannot be generated, which is reported as
+				// ONE failed obligation, not as an engine failure
+				genMu.Lock() // (the deferred unlock below has already run)
+				g = newGen(w, fn, lite)
+				genMu.Unlock()
+				res = []result{{obl: obligation{name: "contract:" + fnKeyQ(fn) + ":not-evaluable", kind: "contract", guard: "true", cond: "false"},
+					status: "unknown", solver: "generator", rawOut: msg}}
+				err = nil
+				return
+			}
 			err = fmt.Errorf("engine failure on %s: %v\n%s", fnKeyQ(fn), r, debug.Stack())
 		}
 	}()
